@@ -168,7 +168,7 @@ func prepareHost(dir string) {
 	mustGit(dir, "branch", "bugs-triage")
 	mustGit(dir, "branch", "bugsquash")
 	mustGit(dir, "branch", "identities-old")
-	mustGit(dir, "worktree", "add", "-q", dir+"-linked", "-b", "linked") // a linked working tree (its .git is a file naming .git/worktrees/...)
+	mustGit(dir, "worktree", "add", "-q", dir+"-linked", "-b", "linked")                                 // a linked working tree (its .git is a file naming .git/worktrees/...)
 	hx.Must(os.WriteFile(filepath.Join(dir, "src", "main.c"), []byte("int main(){return 1;}\n"), 0o644)) // dirty
 	hx.Must(os.WriteFile(filepath.Join(dir, "staged.txt"), []byte("staged\n"), 0o644))
 	mustGit(dir, "add", "staged.txt")
@@ -450,8 +450,11 @@ func runSession(n int, seed uint64, gitbug string, steps int) []*Event {
 				s.attached[b3.Id().String()] = []string{string(es[0]), string(es[1]), string(es[2])}
 				// and file lists that name no object: strings that are no hashes at all, and a well-formed hash of a blob that does not
 				// exist. Refused or accepted, what is written has to be sound (the checks after this step look at it)
+				// ... and hashes of objects that exist and are no files: the commit and the tree the host's HEAD names
+				headCommit, _ := git(s.a, "rev-parse", "HEAD")
+				headTree, _ := git(s.a, "rev-parse", "HEAD^{tree}")
 				for j, bogus := range []string{"thisisnotthehashofanygitobjectxxxxxxxxxx", strings.Repeat("g", 64), strings.Repeat("Z", 40), "abc", "",
-					strings.Repeat("0", 40), "0123456789abcdef0123456789abcdef01234567", strings.Repeat("ab", 32)} {
+					strings.Repeat("0", 40), "0123456789abcdef0123456789abcdef01234567", strings.Repeat("ab", 32), strings.TrimSpace(headCommit), strings.TrimSpace(headTree)} {
 					bb, _, err := c.Bugs().NewWithFiles(fmt.Sprintf("bogus file %d.%d", k, j), "see the attachment", []repository.Hash{repository.Hash(bogus)})
 					if err == nil {
 						_, _, err = bb.AddCommentWithFiles("once more", []repository.Hash{h1, repository.Hash(bogus)})
